@@ -203,7 +203,11 @@ func (ex *Exec) Discharge(outDir string, timeoutS, seed, workers int, agree bool
 			q := ex.Query(o, true)
 			os.WriteFile(file, []byte(q), 0o644)
 			o.SMTFile = file
-			r, times, _ := race(file, timeoutS, seed, "")
+			tmo := timeoutS
+			if ex.knownNames[o.Name] && tmo > 5 {
+				tmo = 5 // a recorded finding: no need to wait long for solvers that cannot decide the failing goal
+			}
+			r, times, _ := race(file, tmo, seed, "")
 			o.Status, o.Solver, o.Seconds, o.RawOut = r.status, r.solver, r.secs, r.out
 			stats.mu.Lock()
 			for k, v := range times {
